@@ -93,7 +93,7 @@ func (g *gstate) sub(id int) {
 
 func (g *gstate) pick(aliveOnly bool) int {
 	n := len(g.nodes)
-	if g.forks >= 11 {
+	if g.forks >= 9 {
 		// no more forks: only alive tips
 		var tips []int
 		for _, c := range g.nodes {
@@ -281,7 +281,7 @@ func (g *gstate) refuseOp() {
 	case 1: // duplicate of any known header
 		g.sub(g.pick(true))
 	case 2: // fork far below the tip (too deep unless maxd is large)
-		if g.forks >= 11 {
+		if g.forks >= 9 {
 			break
 		}
 		n := g.def(g.nodes[g.r.Intn(1+len(g.nodes)/3)].id)
@@ -292,7 +292,7 @@ func (g *gstate) refuseOp() {
 	case 4: // fork exactly at / one beyond the limit
 		want := g.best - g.maxd - g.r.Intn(2)
 		for _, c := range g.nodes {
-			if g.forks >= 11 {
+			if g.forks >= 9 {
 				break
 			}
 			if c.alive && c.height == want && c.kids > 0 {
